@@ -118,8 +118,9 @@ def register(reg):
         "datastore.py) and the SQLite busy-timeout outcome; all schedules within the deviation bound are executed and each is compared "
         "with serial evaluation, one objective call per design and one row per design equal to its final data. Two tasks without "
         "store are explored without bound; others to the bound stated in the evidence.",
-        "joblib is modelled by an executor with its contract (cross-checked by a free-running pass through real joblib); races inside "
-        "one source line are out of reach.",
+        "joblib is modelled by an executor with its contract incl. timeout and require (cross-checked by a free-running pass through "
+        "real joblib); two workers only; below line granularity only where the harness puts a scheduling point (numpy calls of "
+        "artap.individual, serialisation of custom data).",
         "DESIGN.md section 5 C07, section 3.4")
     reg("C14", "ENUM", "exploration",
         "bounded exhaustive enumeration of batch sequences + decision-flipping exploration of real runs",
@@ -167,6 +168,9 @@ def register(reg):
         "The writer is forked once per crash index and dies by os._exit at every event (objective entry/exit, before/after each "
         "connect, execute, commit) of a serial sweep, an NSGA-II run and a 2-worker sweep under every schedule within the "
         "pre-emption bound; the thorough tier re-runs the serial histories under strace and SIGKILLs the process before every "
-        "pwrite64/unlink/... so death inside a commit is covered. Every corpse is reopened read-only and judged.",
+        "pwrite64/unlink/... so death inside a commit is covered. Further histories: transient failures, a foreign lock holder, "
+        "gradient children, transactions larger than the page cache, rewrite mode, two studies on one store, leftovers of an earlier "
+        "killed run, a moved design. Every corpse is recovered in up to three ways (view at once, view two days later, run resumed "
+        "first) and judged, individual by individual.",
         "Process death, not power loss; acknowledgement = the sync call returned.",
         "DESIGN.md section 5 C11, section 3.5")
